@@ -3,7 +3,7 @@ import json, os, subprocess, sys
 sys.path.insert(0, "/verif/tools"); sys.path.insert(0, "/verif")
 import seeded
 from concurrent.futures import ThreadPoolExecutor
-names = ["C01-s5", "C01-sa", "C01-sh", "C01-si", "C02-sh", "C02-si", "C03-s8", "C03-si", "C04-si", "C05-s1", "C05-sa", "C05-sb", "C05-sg", "C06-sb", "C06-se", "C06-sh", "C06-si", "C07-si", "C08-s1", "C08-sa", "C08-sb", "C08-si", "C09-s1", "C09-s3", "C09-sa", "C09-sc", "C09-sd", "C09-se", "C09-sg", "C09-si", "C10-sb", "C10-sd", "C11-sa", "C11-se", "C11-sh", "C12-s2", "C12-s5", "C12-sa", "C12-se", "C12-sh", "C12-si", "C13-s8", "C13-sb", "C13-sf", "C13-sh", "C14-se", "C15-s7", "C15-sa", "C15-sd", "C15-sh", "C15-si", "C16-sa", "C16-sb", "C16-se", "C17-s5", "C17-s7", "C17-se", "C18-s7", "C18-sf", "C18-si", "C19-s3", "C19-s5", "C19-s7", "C19-sa", "C19-sc", "C20-si", ]
+names = ["C14-sk"]
 def one(n):
     prop = n[:3]
     out = subprocess.run(["/venv/bin/python", "/verif/tools/why.py", f"/verif/seeded/{n}", prop], capture_output=True, text=True).stdout
